@@ -183,6 +183,30 @@ def fam_long(seed, kinds=("q", "p", "h"), tag="long"):
     return out
 
 
+NAME_PUNCT = b"!\"#$%&'()*+,-./:;<=>?@[\\]^_`{|}~ \t"
+
+
+def fam_name_pairs(seed, kinds=("q", "p", "h"), tag="npair"):
+    """two adjacent punctuation bytes inside a header name (tchar / non-tchar neighbours), at the phases of the
+       word-at-a-time name scanner, with enough input after them to keep every scanner path engaged"""
+    r = Rng(seed).fork(tag)
+    out = []
+    i = 0
+    for v1 in NAME_PUNCT:
+        for v2 in NAME_PUNCT:
+            pre = (1, 2, 6, 9)[i % 4]
+            name = b"X" * pre + bytes([v1, v2]) + b"Forwarded-For-Long"
+            tail = b": 10.0.0.1\r\nHost: a\r\n\r\n" + BODY_PAD
+            if "q" in kinds and i % 3 == 0:
+                out.append(api("%s.q.%02x%02x.%d" % (tag, v1, v2, pre), "q", b"GET / HTTP/1.1\r\n" + name + tail, r, i, cap=4))
+            if "p" in kinds and i % 3 == 1:
+                out.append(api("%s.p.%02x%02x.%d" % (tag, v1, v2, pre), "p", b"HTTP/1.1 200 OK\r\n" + name + tail, r, i, cap=4))
+            if "h" in kinds and i % 3 == 2:
+                out.append(api("%s.h.%02x%02x.%d" % (tag, v1, v2, pre), "h", name + tail, r, i, cap=4))
+            i += 1
+    return out
+
+
 PAIR_ALPHA = bytes([0x00, 0x01, 0x08, 0x09, 0x0a, 0x0b, 0x0c, 0x0d, 0x1f, 0x20, 0x21, 0x22, 0x3a, 0x40, 0x5b, 0x60,
                     0x7b, 0x7e, 0x7f, 0x80, 0x9f, 0xa0, 0xc0, 0xff])
 
@@ -219,6 +243,18 @@ def padded(cases, stride=3, tag="pad"):
     for j, c in enumerate(cases):
         if c[0] == "A" and j % stride == 0:
             out.append((c[0], tag + "." + c[1]) + tuple(c[2:6]) + (c[6] + BODY_PAD,))
+    return out
+
+
+def lines_bases(seed, n, tag="lb"):
+    """a sample of the line-template products as small bases for the prefix relations (C02, C11): every
+       option set, capacities 0..2 so that the surplus header is one of the two lines"""
+    r = Rng(seed).fork(tag)
+    ls = [c for c in fam_lines(seed, ("q", "p", "h"), depth=2) if c[1].endswith(".0") or True]
+    step = max(1, len(ls) // n)
+    out = []
+    for i, c in enumerate(ls[r.below(step)::step]):
+        out.append(("A", "%s.%d.%s" % (tag, i, c[1]), c[2], c[3], c[4], i % 3, c[6]))
     return out
 
 
@@ -353,6 +389,7 @@ LINE_TEMPLATES = [
     b"A: b\x01c", b"A: \x7f", b"A: b\x00c", b"N\x00: v", b"\x00",    # control bytes, NUL
     b"A: b\rc", b"A\r: b", b"\rA: b",                                # CR not followed by LF
     b"A: \xff\x80", b"A: b ", b"A:  b\t\t",                          # obs-text, trailing whitespace
+    b" \x01x", b"\t\x00", b"Bad Name: x\x00y", b"Bad Name: x\ry",       # a continuation / a dropped line that turns fatal later
 ]
 EOLS = [b"\r\n", b"\n"]
 
